@@ -32,7 +32,7 @@ REQUIRED = {"supplied_atoms_checked": 2000, "centre_only_residues": 100, "genera
             "supplied_checks_after_removal": 200, "ignore_positions": 3,
             "meta_build_res_runs": 8, "injected_step_schedules": 30, "atoms_and_centres_runs": 20, "ligand_runs_with_supplied_hosts": 30, "ignore_runs_with_density_box": 15, "molecules_with_coordinates_continued": 200,
             "pdb_inputs_with_three_or_more_molecules": 10, "scattered_runs": 60, "scattered_supplied_atoms_checked": 600,
-            "scattered_runs_with_rebuilt_residues": 15}
+            "scattered_runs_with_rebuilt_residues": 15, "complete_structure_with_residues_named_for_rebuilding": 15}
 
 
 def plan(tier, seed):
